@@ -35,7 +35,7 @@ fn run(args: vcore::Args) -> i32 {
     for (m, depth) in configs {
         let before = (rep.states, rep.transitions);
         let t0 = rep.elapsed_s();
-        let st = vcore::seq_bfs(&m, depth, 30_000_000, &mut rep);
+        let st = vcore::seq_bfs(&m, depth, tier.pick(2_000_000, 1_500_000), &mut rep);
         layers.push(json!({"layer": "session", "config": m.config_json(), "depth_bound": depth, "depth_completed": st.depth_completed, "states": rep.states - before.0, "transitions": rep.transitions - before.1, "wall_s": rep.elapsed_s() - t0}));
         eprintln!("session layer: depth {depth}: {} states {} transitions ({:.1}s)", rep.states - before.0, rep.transitions - before.1, rep.elapsed_s() - t0);
     }
